@@ -184,6 +184,8 @@ def deep_expand(fl, expr, node, depth=3):
                         if isinstance(t, ast.Subscript) and isinstance(t.value, ast.Name) and t.value.id == nm and d in fl.defs_at(n, nm):
                             out += deep_expand(fl, s.value, n, depth - 1)
                             out.append(fl.expand(t.slice, n))
+                if isinstance(s, ast.AugAssign) and isinstance(s.target, ast.Name) and s.target.id == nm and isinstance(s.op, (ast.Add, ast.BitOr)):
+                    out += deep_expand(fl, s.value, n, depth - 1)          # L += [v] / D |= {...}: contributes like append / update
                 for e in fl.cfg.node_exprs(n):
                     for p, m, c in mutating_calls(e):
                         if p == nm and m in ("append", "extend", "add", "update", "insert") and d in fl.defs_at(n, nm):
